@@ -414,7 +414,9 @@ type RichCfg struct {
 	EOFAlias bool // sometimes declare a token with number -1 (alias of the end marker)
 }
 
-var nameShapes = []string{"x", "Tok", "_t", "t_1", "T9", "LongTokenNameWithManyLettersAndDigits0123456789", "tÄ", "ñandú", "Λ", "t__", "Z_z"}
+var nameShapes = []string{"x", "Tok", "_t", "t_1", "T9", "LongTokenNameWithManyLettersAndDigits0123456789", "tÄ", "ñandú", "Λ", "t__", "Z_z",
+	// names that are another name plus digits, or differ only in case
+	"X", "X1", "X11", "X2", "T1", "T12", "tok"}
 
 // Rich produces a usable random grammar that exercises the declaration
 // section: explicit token numbers, literals, tags, tokens declared by %token /
@@ -1248,6 +1250,81 @@ func Optionals(r *rand.Rand) *spec.Grammar {
 			}
 			add(item, rhs...)
 		}
+		g.DefaultActs()
+		if Usable(g) {
+			return g
+		}
+	}
+}
+
+// Aliases produces grammars in which several nonterminals are defined by the
+// same right-hand side (unit rules over one base nonterminal, or identical
+// token sequences) and are told apart only by the token that follows them:
+// one reduction is looked back to from several transitions of one state, with
+// a different follow set each.
+func Aliases(r *rand.Rand) *spec.Grammar {
+	for {
+		g := &spec.Grammar{}
+		k := 2 + r.Intn(3)
+		nT := k + 3 + r.Intn(3)
+		for i := 0; i < nT; i++ {
+			g.Tokens = append(g.Tokens, spec.Token{Name: fmt.Sprintf("T%c", 'a'+i), Decl: "token", Tag: "s"})
+		}
+		T := func(i int) spec.Sym { return spec.Sym{T: true, I: i} }
+		N := func(i int) spec.Sym { return spec.Sym{I: i} }
+		nt := func(name string) int {
+			g.NTs = append(g.NTs, spec.NT{Name: name, Tag: "s"})
+			return len(g.NTs) - 1
+		}
+		add := func(lhs int, rhs ...spec.Sym) {
+			g.Rules = append(g.Rules, spec.Rule{Lhs: lhs, Rhs: rhs, Prec: -1})
+		}
+		prog, stmt, base := nt("Prog"), nt("Stmt"), nt("Base")
+		var ali []int
+		for i := 0; i < k; i++ {
+			ali = append(ali, nt(fmt.Sprintf("Ali%c", 'A'+i)))
+		}
+		opt := nt("OptTail")
+		id := T(nT - 1)
+		end := T(nT - 2)
+		// rule order matters for such defects: statements first or aliases first
+		stmts := func() {
+			for i, a := range ali {
+				rhs := []spec.Sym{N(a), T(i)}
+				switch r.Intn(3) {
+				case 0:
+					rhs = append(rhs, N(opt))
+				case 1:
+					rhs = append(rhs, N(ali[r.Intn(len(ali))]), N(opt))
+				}
+				rhs = append(rhs, end)
+				add(stmt, rhs...)
+			}
+		}
+		aliases := func() {
+			for _, a := range ali {
+				if r.Intn(4) == 0 {
+					add(a, id) // the same token sequence instead of the unit rule
+				} else {
+					add(a, N(base))
+				}
+			}
+		}
+		add(prog, N(stmt))
+		add(prog, N(prog), N(stmt))
+		if r.Intn(2) == 0 {
+			stmts()
+			aliases()
+		} else {
+			aliases()
+			stmts()
+		}
+		add(base, id)
+		if r.Intn(2) == 0 {
+			add(base, N(base), T(nT-3), id)
+		}
+		add(opt)
+		add(opt, T(nT-3), id)
 		g.DefaultActs()
 		if Usable(g) {
 			return g
